@@ -261,6 +261,9 @@ def doc_twins(ctx, res, c):
         except Exception as e:
             res.violation(f"document:pre-edit-raised:{pre}:{type(e).__name__}", {"exc": repr(e)}, {"case": case})
             return
+        # handles taken before the cloning must stay attached to the original
+        handle = a.body if pre in ("touch_body", "touch_all", "edit_body", "add_file", "add_many", "meta") and "content.xml" not in ma.frozen else None
+        meta_handle = a.meta if pre in ("touch_all", "meta") else None
         ea = DL.expected_state(a, ma)
         b = a.clone
         mb = DL.EditModel()
@@ -280,6 +283,30 @@ def doc_twins(ctx, res, c):
             m, d = v[0]
             res.violation(m, dict(d, pre=pre), {"case": case})
             return
+        if handle is not None:
+            from odfdo import Paragraph
+
+            res.judge()
+            res.cls(("Document", "handle-taken-before-clone", "pre=" + pre), True)
+            marker = f"VIA-OLD-HANDLE-{k}"
+            try:
+                handle.append(Paragraph(marker)) if a.mimetype.endswith("text") else handle.set_attribute("office:vf", marker)
+                if meta_handle is not None:
+                    meta_handle.title = marker
+            except Exception as e:
+                res.violation(f"document:old-handle-raised:{type(e).__name__}", {"exc": repr(e), "pre": pre}, {"case": case})
+                return
+            sa = DL.expected_state(a, ma)
+            sb = DL.expected_state(b, mb)
+            if marker.encode() not in sa.get("content.xml", b""):
+                res.violation("document:handle-taken-before-cloning-detached-from-the-original", {"pre": pre, "part": "content.xml"}, {"case": case})
+                return
+            if meta_handle is not None and marker.encode() not in sa.get("meta.xml", b""):
+                res.violation("document:handle-taken-before-cloning-detached-from-the-original", {"pre": pre, "part": "meta.xml"}, {"case": case})
+                return
+            if marker.encode() in sb.get("content.xml", b"") or marker.encode() in sb.get("meta.xml", b""):
+                res.violation("document:edit-through-old-handle-visible-in-the-clone", {"pre": pre}, {"case": case})
+                return
         if a.container is b.container or a.container._Container__parts is b.container._Container__parts:
             res.violation("document:clone-shares-container-parts", {"pre": pre}, {"case": case})
             return
